@@ -54,14 +54,15 @@ QE_Signers == {{"ALPHA"}, {"n1"}, {"n2"}}
 Q_IRSets   == {{"n1"}, {"n1", "n2"}}
 \* thorough
 T_Epochs   == {0, 1, 128, 257, 65664}
-TE_Epochs  == {0, 1, 2, 257}
+TE_Epochs  == {0, 1, 257}
+TA_Epochs  == {0, 1, 257, 65664}
 T_Peers    == {"p1", "p2", "p3"}
 T_Nodes    == {"n1", "n2", "n3"}
 T_Vals     == {"v0", "v1", "v2"}
 T_Owners   == {"o1", "o2", "obad"}
 T_CfgKeys  == {"", "A", "AB", "B"}
-TR_Signers == {{}, {"ALPHA"}, {"CMT"}, {"M1"}}
-TA_Signers == {{}, {"n1"}, {"n2"}, {"n3"}, {"CMT"}, {"ALPHA"}, {"ALPHA", "n1"}, {"n1", "n2"}}
+TR_Signers == {{}, {"ALPHA"}, {"CMT"}}
+TA_Signers == {{"n1"}, {"n2"}, {"n3"}, {"CMT"}, {"ALPHA", "n1"}}
 TE_Signers == {{}, {"ALPHA"}, {"n1"}, {"n2"}, {"CMT"}, {"ALPHA", "n1"}}
 T_IRSets   == {{"n1"}, {"n2", "n3"}, {"n1", "n2", "n3"}}
 \* simulation (scenario generation)
